@@ -22,6 +22,7 @@
 -/
 import FordModel.Path
 import FordModel.Nav
+import FordModel.PageName
 namespace Ford.Assets
 open Ford.Path Ford.Nav
 
@@ -136,11 +137,14 @@ structure PageTables where
   copyGuard : CopyGuard
   /-- guard of `for item in self.obj.files: shutil.copy(..)` -/
   filesGuard : CopyGuard
+  /-- round 6: how `PageNode.url`, `PagetreePage.outfile` and `PagetreePage.loc` name the page's HTML file
+      (`PageName.lean`) -/
+  names : PageName.NameTables
   deriving Repr, DecidableEq
 
-def pageSeg : Seg := ['p', 'a', 'g', 'e']
+abbrev pageSeg : Seg := PageName.pageSeg
 def indexStem : Seg := ['i', 'n', 'd', 'e', 'x']
-def htmlExt : Str := ['.', 'h', 't', 'm', 'l']
+abbrev htmlExt : Str := PageName.htmlExt
 
 /-- a `PageNode` as `PagetreePage.writeout` sees it: `copySubdir` pairs every item that is a directory
     next to the page source with the files below it; `files` are the other files of the page's directory
@@ -155,7 +159,7 @@ def PageNode.isIndex (p : PageNode) : Bool := p.stem == indexStem
 
 /-- the files `PagetreePage.writeout` creates for one page, below the output directory -/
 def pageWrites (T : PageTables) (p : PageNode) : List (List Seg) :=
-  (pageSeg :: p.loc ++ [p.stem ++ htmlExt]) ::
+  PageName.outPath T.names p.loc p.stem ::
     ((if T.copyGuard.runs p.isIndex then
         p.copySubdir.flatMap fun it => it.2.map fun f => pageSeg :: p.loc ++ it.1 :: f
       else []) ++
